@@ -104,7 +104,13 @@ def scope_filter(ctx: Ctx, rule: str) -> None:
                    "" if ok else f"the inputs of the scope filter in {op} changed")
         # the filter statement itself
         ifs = [s for s in loop.body if isinstance(s, ast.If) and "source_scope" in ast.unparse(s.test)]
-        filters[op] = norm.formula(ifs[0].test) if len(ifs) == 1 else None
+        # `if F: continue` and `if not F: <the rest>` are the same filter
+        if len(ifs) == 1 and len(ifs[0].body) == 1 and isinstance(ifs[0].body[0], ast.Continue) and not ifs[0].orelse:
+            filters[op] = norm.formula(ifs[0].test)
+        elif len(ifs) == 1 and not ifs[0].orelse and loop.body[-1] is ifs[0]:
+            filters[op] = norm.neg(norm.formula(ifs[0].test))
+        else:
+            filters[op] = None
     want = norm.formula(ast.parse(FILTER, mode="eval").body)
     ok = all(f is not None and norm.equivalent(f, want) for f in filters.values())
     ctx.record(rule + "s", "SIBLING", SSB, "the scope filters of show/get/set/unset are the same boolean function", ok,
@@ -176,7 +182,8 @@ def closest_source(ctx: Ctx, rule: str) -> None:
             if v.path.exit == "raise":
                 continue
             if filtered:
-                if v.path.exit != "continue" or tcalls:
+                # skipped = nothing but moving on to the next source (an explicit `continue` or the end of a body nested under the negated filter)
+                if v.path.exit not in ("continue", "fall") or tcalls:
                     problems.append(("a source excluded by the scope filter is not simply skipped", v))
             elif permitted:
                 if op == "get":
@@ -420,12 +427,19 @@ def routing(ctx: Ctx, rule: str) -> None:
             cname, call = calls[0]
             kind = cname[len(stem) + 1:]
             txt = " & ".join(conds)
+            # `hosts` is a str: `hosts != ""` and plain truthiness are the same test
+            cf = norm.conj([v.cond_formula(i) for i, s in enumerate(v.steps) if s.kind == "cond"])
+            has_host = norm.disj([("not", ("atom", "hosts == ''")), ("atom", "hosts")])
+            no_host = norm.disj([("atom", "hosts == ''"), ("not", ("atom", "hosts"))])
+            is_remote = norm.implies(cf, ("not", ("atom", "hosts == ''"))) or norm.implies(cf, ("atom", "hosts"))
+            is_local = norm.implies(cf, ("atom", "hosts == ''")) or norm.implies(cf, ("not", ("atom", "hosts")))
+            semi = ("atom", "';' in path")
             if kind == "remote":
-                ok = "not (hosts == '')" in txt and ast.unparse(call.args[-2]) == "pool_path"
+                ok = is_remote and ast.unparse(call.args[-2]) == "pool_path"
             elif kind == "link":
-                ok = "hosts == ''" in txt and "';' in path" in txt and ast.unparse(call.args[-2]) == "path.replace(';', '')"
+                ok = is_local and norm.implies(cf, semi) and ast.unparse(call.args[-2]) == "path.replace(';', '')"
             elif kind == "local":
-                ok = "hosts == ''" in txt and "not (';' in path)" in txt and ast.unparse(call.args[-2]) == "path"
+                ok = is_local and norm.implies(cf, norm.neg(semi)) and ast.unparse(call.args[-2]) == "path"
             else:
                 ok = False
             if not ok:
@@ -626,9 +640,17 @@ def pool_listing_names(ctx: Ctx, rule: str) -> None:
         g = comps[0].generators[0]
         v = ast.unparse(g.target)
         detail = ast.unparse(comps[0])
-        filt = any(norm.equivalent(norm.formula(t), norm.formula(ast.parse(f"{v}.endswith(format)", mode="eval").body)) for t in g.ifs)
+        # the suffix is whatever local holds it (its name does not matter): endswith(X) and the cut by len(X) use the same X,
+        # and X is bound to the two state suffixes
+        sfx = None
+        for t in g.ifs:
+            if isinstance(t, ast.Call) and isinstance(t.func, ast.Attribute) and t.func.attr == "endswith" and ast.unparse(t.func.value) == v and len(t.args) == 1 and isinstance(t.args[0], ast.Name):
+                sfx = t.args[0].id
+        filt = sfx is not None
         elt = ast.unparse(comps[0].elt)
-        strip = elt in (f"{v}[:-len(format)]", f"{v}.removesuffix(format)", f"{v}[:len({v}) - len(format)]")
+        strip = filt and elt in (f"{v}[:-len({sfx})]", f"{v}.removesuffix({sfx})", f"{v}[:len({v}) - len({sfx})]")
+        vals = sorted(ast.unparse(s_.value) for s_ in ast.walk(fn.node) if isinstance(s_, ast.Assign) and sfx and ast.unparse(s_.targets[0]) == sfx)
+        strip = strip and vals == ["'.qcow2'", "'.state'"]
         ok = filt and strip and len(g.ifs) == 1
     ctx.record(rule, "TABLE", fref, "pool listing: exactly the entries ending in the state suffix (.qcow2 / .state), with that suffix cut off the end", ok, {"listing": detail},
                "" if ok else f"every directory entry is reported as a state ({detail}): lock files ('<state>.qcow2.lock' -> '<state>.lock') and per-image directories appear as states, also after the state was removed")
